@@ -81,3 +81,56 @@ package ntor
 //@   nobody the body calls x25519ell2.RepresentativeToPublicKey, whose contract is the subject of C07
 //@   requires repr != nil
 //@   ensures pub != nil && fresh(pub) && seq(pub) == ELL2(seq(repr))
+
+// ---- hex forms used by the state file and the legacy bridge-line arguments (C18) ----
+//@ func NewNodeID(raw) (id, err)
+//@   serves C18 C10
+//@   ensures [C18:nodeid_len] (err == nil) == (len(raw) == 20) && (err == nil) == (id != nil)
+//@   ensures err == nil ==> seq(id) == seq(raw) && fresh(id)
+
+//@ func NodeIDFromHex(encoded) (id, err)
+//@   serves C18 C10
+//@   ensures [C18:nodeid_from_hex] (err == nil) == (ISHEX(encoded) && len(encoded) == 40) && (err == nil) == (id != nil)
+//@   ensures err == nil ==> seq(id) == UNHEX(encoded) && fresh(id)
+
+//@ func (*NodeID).Hex(id) (s)
+//@   serves C18
+//@   requires id != nil
+//@   ensures s == HEX(seq(id))
+
+//@ func (*PublicKey).Hex(public) (s)
+//@   serves C18
+//@   requires public != nil
+//@   ensures s == HEX(seq(public))
+
+//@ func (*PrivateKey).Hex(private) (s)
+//@   serves C18
+//@   requires private != nil
+//@   ensures s == HEX(seq(private))
+
+//@ func KeypairFromHex(encoded) (kp, err)
+//@   serves C18 C10
+//@   ensures [C18:keypair_from_hex] (err == nil) == (ISHEX(encoded) && len(encoded) == 64) && (err == nil) == (kp != nil)
+//@   ensures err == nil ==> kp.private != nil && kp.public != nil && seq(kp.private) == UNHEX(encoded) && seq(kp.public) == X25519BASE(UNHEX(encoded)) && kp.representative == nil && fresh(kp) && fresh(kp.private) && fresh(kp.public)
+
+// Key generation: the public key always belongs to the private key that is returned (for the Elligator
+// form: the "dirty" public key of x25519ell2 together with its representative).  Termination of the
+// retry loop is probabilistic and not decided.
+//@ func NewKeypair(elligator) (kp, err)
+//@   serves C07 C18 C10
+//@   loop 1 invariant keypair != nil && fresh(keypair) && keypair.private != nil && keypair.public != nil && fresh(keypair.private) && fresh(keypair.public) && keypair.private != keypair.public
+//@   loop 1 invariant elligator == (keypair.representative != nil) && (elligator ==> fresh(keypair.representative))
+//@   ensures (err == nil) == (kp != nil)
+//@   ensures err == nil ==> kpOK(kp) && fresh(kp) && fresh(kp.private) && fresh(kp.public) && elligator == (kp.representative != nil)
+//@   ensures [C07:public_belongs_to_private] err == nil && elligator ==> seq(kp.public) == FBYTES(DIRTYU(seq(kp.private)))
+//@   ensures [C18:clean_public_key] err == nil && !elligator ==> seq(kp.public) == X25519BASE(seq(kp.private))
+
+//@ func NewPublicKey(raw) (pk, err)
+//@   serves C18 C10
+//@   ensures [C18:pubkey_len] (err == nil) == (len(raw) == 32) && (err == nil) == (pk != nil)
+//@   ensures err == nil ==> seq(pk) == seq(raw) && fresh(pk)
+
+//@ func PublicKeyFromHex(encoded) (pk, err)
+//@   serves C18 C10
+//@   ensures [C18:pubkey_from_hex] (err == nil) == (ISHEX(encoded) && len(encoded) == 64) && (err == nil) == (pk != nil)
+//@   ensures err == nil ==> seq(pk) == UNHEX(encoded) && fresh(pk)
